@@ -2,14 +2,26 @@
    Model of the data path of internal/driver/device.go: the llrp.Client read loop of each device
    calls the device's handler for ROAccessReport / ReaderEventNotification synchronously
    (newROHandler / newReaderEventHandler, also from checkInitialMessage for the first message);
-   the handler decodes the payload; on a decoding error it returns; otherwise it starts one
-   goroutine ("publisher") that owns the decoded value, the device's name (never written after
-   construction) and the resource name (a constant per handler), possibly runs onConnect first,
-   and then performs one send on the driver's asynchronous-values channel.
+   the handler reads the payload the header announced and decodes it; when the payload does not
+   arrive completely (the connection ends first) or decoding fails it returns; otherwise it starts
+   one goroutine ("publisher") that owns the decoded value, the device's name (never written after
+   construction) and the resource name (a constant per handler) and performs one send on the
+   driver's asynchronous-values channel. The publisher of a successful connection event runs
+   onConnect first: it reads the device's cached operating-state flag (isUp) and, when that says
+   DOWN, calls the SDK's UpdateDeviceOperatingState(Up) and waits for it to return (the flag
+   becomes true only if the call succeeds); only publishers of connection events ever look at
+   the flag. The supervisor marks a device DOWN after failed connection attempts.
 
-   MODEL ONLY (no proofs here). Publishers run in any order: [PublisherRun k] lets the k-th
-   pending publisher complete its channel send (the SDK takes the value). Commands, their
-   replies, keep-alives and messages of other types do not touch readings. *)
+   MODEL ONLY (no proofs here). Publishers run in any order: [OnConnectStart k] lets the k-th
+   started connection-event publisher enter onConnect, [SdkReturn k ok] lets the SDK call of the
+   k-th parked one return, [PublisherRun k] lets the k-th pending publisher complete its channel
+   send (the SDK takes the value). Commands, their replies, keep-alives and messages of other
+   types do not touch readings.
+
+   The decoder is a parameter of the model: [dec t bs] is what decoding the payload bytes [bs]
+   into the struct of message type [t] gives (None: error); [is_conn c] says whether a decoded
+   ReaderEventNotification carries a successful ConnectionAttemptEvent. A message is received at
+   a time [now] of the driver's clock (the handlers read it); nothing published depends on it. *)
 From Coq Require Import NArith List Bool Arith.
 Import ListNotations.
 
@@ -31,21 +43,37 @@ Definition resource_of (t : mtype) : option resource :=
 Definition reading := (dev * resource * content)%type.
 
 Inductive event :=
-| Recv (d : dev) (t : mtype) (dec : option content) (conn_success : bool)
-    (* device d's client reads a message of type t; dec = what decoding its payload into t's
-       struct gives (None: the decoder returns an error); conn_success: a ReaderEventNotification
-       with a successful ConnectionAttemptEvent (its publisher runs onConnect before sending) *)
+| Recv (d : dev) (t : mtype) (bs : list N) (now : N)
+    (* device d's client reads a complete message of type t with payload bytes bs, at time now *)
+| RecvCut (d : dev) (t : mtype) (got : list N) (missing : nat) (now : N)
+    (* the header of a message of type t announced [length got + S missing] payload bytes; the
+       connection ended (end of stream, reset, deadline) after [got] *)
+| OnConnectStart (k : nat)   (* the k-th started connection-event publisher enters onConnect *)
+| SdkReturn (k : nat) (ok : bool)
+    (* UpdateDeviceOperatingState(Up) called by the k-th parked publisher returns (ok: without error) *)
 | PublisherRun (k : nat)     (* the k-th pending publisher performs its channel send *)
+| MarkDown (d : dev) (sdk_ok : bool)
+    (* the supervisor gives up after maxConnAttempts: isUp := false, and back to true when
+       telling EdgeX fails (device.go:188-205) *)
 | Command (d : dev)          (* a command issued through the driver (request + reply) *)
 | KeepAliveAck (d : dev).    (* the client acknowledges a keep-alive *)
 
 Record state := mk {
-  pending : list reading;     (* publishers started and not yet through their channel send *)
+  starting : list reading;    (* connection-event publishers started, not yet in onConnect *)
+  parked : list reading;      (* in onConnect, waiting for the SDK's operating-state call *)
+  pending : list reading;     (* publishers that have only their channel send left *)
   published : list reading;   (* values the SDK took from the channel, in order *)
-  onconnects : nat            (* how often onConnect was run by a publisher *)
+  isup : dev -> bool;         (* the devices' cached operating-state flags *)
+  onconnects : nat;           (* how often onConnect was run by a publisher *)
+  sdk_up_calls : nat          (* how often UpdateDeviceOperatingState(Up) was called *)
 }.
 
-Definition init : state := mk [] [] 0.
+Definition init_up (up0 : dev -> bool) : state := mk [] [] [] [] up0 0 0.
+(* every device registered UP (Driver.AddDevice) *)
+Definition init : state := init_up (fun _ => true).
+
+(* everything started and not yet published *)
+Definition inflight (s : state) : list reading := starting s ++ parked s ++ pending s.
 
 Fixpoint remove_nth {A} (k : nat) (l : list A) : list A :=
   match l, k with
@@ -54,36 +82,89 @@ Fixpoint remove_nth {A} (k : nat) (l : list A) : list A :=
   | x :: l', S k' => x :: remove_nth k' l'
   end.
 
+Definition set_up (f : dev -> bool) (d : dev) (b : bool) : dev -> bool :=
+  fun d' => if N.eqb d' d then b else f d'.
+
+Definition is_ren (r : resource) : bool :=
+  match r with ResReaderEventNotification => true | _ => false end.
+
+Section Model.
+Variable dec : mtype -> list N -> option content.
+Variable is_conn : content -> bool.
+
+(* does the publisher of this reading run onConnect before sending? *)
+Definition conn_reading (x : reading) : bool :=
+  match x with (_, r, c) => is_ren r && is_conn c end.
+
 Definition step (s : state) (e : event) : state :=
   match e with
-  | Recv d t dec cs =>
-    match resource_of t, dec with
-    | Some r, Some c => mk (pending s ++ [(d, r, c)]) (published s)
-                           (if cs then S (onconnects s) else onconnects s)
+  | Recv d t bs _ =>
+    match resource_of t, dec t bs with
+    | Some r, Some c =>
+      if conn_reading (d, r, c)
+      then mk (starting s ++ [(d, r, c)]) (parked s) (pending s) (published s)
+              (isup s) (onconnects s) (sdk_up_calls s)
+      else mk (starting s) (parked s) (pending s ++ [(d, r, c)]) (published s)
+              (isup s) (onconnects s) (sdk_up_calls s)
     | _, _ => s              (* no handler for this type, or the handler returned on the error *)
+    end
+  | RecvCut _ _ _ _ _ => s   (* reading the payload fails: the handler returns *)
+  | OnConnectStart k =>
+    match nth_error (starting s) k with
+    | Some x =>
+      if isup s (fst (fst x))
+      then mk (remove_nth k (starting s)) (parked s) (pending s ++ [x]) (published s)
+              (isup s) (S (onconnects s)) (sdk_up_calls s)
+      else mk (remove_nth k (starting s)) (parked s ++ [x]) (pending s) (published s)
+              (isup s) (S (onconnects s)) (S (sdk_up_calls s))
+    | None => s
+    end
+  | SdkReturn k ok =>
+    match nth_error (parked s) k with
+    | Some x =>
+      mk (starting s) (remove_nth k (parked s)) (pending s ++ [x]) (published s)
+         (if ok then set_up (isup s) (fst (fst x)) true else isup s)
+         (onconnects s) (sdk_up_calls s)
+    | None => s
     end
   | PublisherRun k =>
     match nth_error (pending s) k with
-    | Some x => mk (remove_nth k (pending s)) (published s ++ [x]) (onconnects s)
+    | Some x => mk (starting s) (parked s) (remove_nth k (pending s)) (published s ++ [x])
+                   (isup s) (onconnects s) (sdk_up_calls s)
     | None => s
     end
+  | MarkDown d sdk_ok =>
+    mk (starting s) (parked s) (pending s) (published s)
+       (set_up (isup s) d (isup s d && negb sdk_ok)) (onconnects s) (sdk_up_calls s)
   | Command _ => s
   | KeepAliveAck _ => s
   end.
 
 Definition run (s : state) (evs : list event) : state := fold_left step evs s.
 
-(* what must reach EdgeX, as a function of the received messages alone *)
+(* what must reach EdgeX, as a function of the completely received messages alone *)
 Fixpoint expected (evs : list event) : list reading :=
   match evs with
   | [] => []
-  | Recv d t (Some c) _ :: evs' =>
-    match resource_of t with
-    | Some r => (d, r, c) :: expected evs'
-    | None => expected evs'
+  | Recv d t bs _ :: evs' =>
+    match resource_of t, dec t bs with
+    | Some r, Some c => (d, r, c) :: expected evs'
+    | _, _ => expected evs'
     end
   | _ :: evs' => expected evs'
   end.
 
-(* let every pending publisher run (one fair schedule) *)
-Definition drain (s : state) : list event := repeat (PublisherRun 0) (length (pending s)).
+(* let every started publisher run to its end (one fair schedule); [ok]: how the SDK calls end *)
+Definition drain (ok : bool) (s : state) : list event :=
+  let n := length (inflight s) in
+  repeat (OnConnectStart 0) n ++ repeat (SdkReturn 0 ok) n ++ repeat (PublisherRun 0) n.
+
+(* the same events, received at other times *)
+Definition retime (f : N -> N) (e : event) : event :=
+  match e with
+  | Recv d t bs now => Recv d t bs (f now)
+  | RecvCut d t got m now => RecvCut d t got m (f now)
+  | _ => e
+  end.
+
+End Model.
